@@ -101,11 +101,12 @@ def site_sig(site, repo):
     if len(site) >= 6:
         return site_sig(site[3:6], repo) + '>call'
     base, line, func = site[:3]
+    post = '>after-call' if '+ret' in str(func) else ''
     for d in (os.path.join(repo, 'pyworkers'), os.path.join(HOME, 'pwv')):
         p = os.path.join(d, base)
         if os.path.exists(p):
-            return '%s:%s' % (base, region_of(p, line))
-    return '%s:%s' % (base, func)
+            return '%s:%s%s' % (base, region_of(p, line), post)
+    return '%s:%s%s' % (base, func, post)
 
 
 # ---------------------------------------------------------------------------------------------------------------------
@@ -200,7 +201,7 @@ class Driver:
             cls = getattr(statew, wcls + '_' + kind)
             clsname = cls.__name__
         spec = {'run_dir': rd, 'arm': dict(ARM[kind], cls=clsname), 'files': FILES, 'events': case.get('events', []),
-                'inprocess': kind in ('T', 'PT')}
+                'inprocess': kind in ('T', 'PT'), 'post_call': bool(case.get('post_call'))}
         if case.get('parent_arm'):
             # the landing alphabet is the parent's own call (a preemption point enumeration), not the child's run loop
             spec['arm'] = dict(case['parent_arm'], cls=clsname)
@@ -659,7 +660,7 @@ FRAMING = ('recv_msg', '_recv_exactly', 'send_msg')      # message framing of th
 
 
 def is_anchored(site):
-    return site[2] in ANCHORED or site[0] in ('targets.py', 'statew.py')
+    return site[2].split('+')[0] in ANCHORED or site[0] in ('targets.py', 'statew.py')
 
 
 def select_points(sites, full):
@@ -668,6 +669,9 @@ def select_points(sites, full):
     n = len(sites)
     if full:
         return list(range(1, n + 1))
+    if any('+ret' in s[2] for s in sites):
+        # post-call alphabet: the points after which the next line lies in another try range
+        return [i + 1 for i, s in enumerate(sites) if s[2].endswith('+ret!')]
     keep = []
     for i, s in enumerate(sites):
         if is_anchored(s) or s[2] in FRAMING:
